@@ -441,3 +441,45 @@ Proof.
   intro Hp. apply (gint_ext (dsum p 0 f) _ 0 0); [|reflexivity|now apply gint_dsum].
   intro x. rewrite dsum_eq. cbn [pow]. ring.
 Qed.
+
+(* ------------------------------------------------------------------ *)
+(* the honest integral, as a functional on coefficient lists, satisfies the hypotheses of the
+   abstract uniqueness theorem of Bridge.v; so [bridge_uniqueness] applies to it *)
+Definition Gfun (p : R) (f : list R) : R := Gint (fun x => peval f x * exp (- p * x ^ 2)).
+
+Lemma vR_law p : 0 < p -> fmul RKd (fmul RKd (fadd RKd (f1 RKd) (f1 RKd)) p) (vR p) = f1 RKd.
+Proof. intro Hp. cbn [fmul fadd f1 RKd]. unfold vR. field. lra. Qed.
+
+Theorem Gfun_bridge_laws (p J0 : R) : 0 < p ->
+  gint (fun x => exp (- p * x ^ 2)) J0 ->
+  plinear RKd (Gfun p) /\ kills_all_derivatives RKd p (Gfun p) /\ Gfun p [1] = J0.
+Proof.
+  intros Hp H0.
+  assert (Hex : forall f, gint (fun x => peval f x * exp (- p * x ^ 2)) (Gfun p f)).
+  { intro f. pose proof (gauss_bridge p J0 Hp H0 f) as H. unfold Gfun.
+    rewrite (Gint_correct _ _ H). exact H. }
+  split; [split|split].
+  - intros f g. apply Gint_correct.
+    apply (gint_ext (fun x => peval f x * exp (- p * x ^ 2) + peval g x * exp (- p * x ^ 2)) _
+                    (Gfun p f + Gfun p g)); [intro x; rewrite peval_padd; ring | reflexivity |].
+    exact (gint_plus _ _ _ _ (Hex f) (Hex g)).
+  - intros c f. apply Gint_correct.
+    apply (gint_ext (fun x => c * (peval f x * exp (- p * x ^ 2))) _ (c * Gfun p f));
+      [intro x; rewrite peval_pscale; ring | reflexivity |].
+    exact (gint_scal c _ _ (Hex f)).
+  - intro f. apply Gint_correct. now apply gauss_integral_kills_all_derivatives.
+  - apply Gint_correct.
+    apply (gint_ext (fun x => exp (- p * x ^ 2)) _ J0 J0); [|reflexivity|exact H0].
+    intro x. cbn [peval]. ring.
+Qed.
+
+(* second proof of [gauss_bridge], through the abstract theorem *)
+Corollary gauss_bridge_via_uniqueness (p J0 : R) : 0 < p ->
+  gint (fun x => exp (- p * x ^ 2)) J0 ->
+  forall f, Gfun p f = J0 * E RKd (vR p) f.
+Proof.
+  intros Hp H0 f. destruct (Gfun_bridge_laws p J0 Hp H0) as [HL [HK H1]].
+  rewrite <- H1.
+  exact (bridge_uniqueness RKd RKd_field p (vR p) (vR_law p Hp) (Gfun p) HL
+           (kills_all_kills RKd p (Gfun p) HK) f).
+Qed.
